@@ -253,7 +253,11 @@ def translate_pattern(pattern: str, flags: int = 0, xsd_version: str = '1.0',
                     # XSD 1.1 supports Is prefix to match Unicode blocks
                     if xsd_version == '1.0' or not block_name.startswith('Is'):
                         raise
-                    p_shortcut_group = '[%s]' % UnicodeSubset([(0, maxunicode)])
+                    # An unknown block matches any character (so its complement matches nothing)
+                    if pattern[block_pos + 1] == 'p':
+                        p_shortcut_group = '[%s]' % UnicodeSubset([(0, maxunicode)])
+                    else:
+                        p_shortcut_group = '[^%s]' % UnicodeSubset([(0, maxunicode)])
                 else:
                     if pattern[block_pos + 1] == 'p':
                         p_shortcut_group = '[%s]' % p_shortcut_set
